@@ -11,7 +11,9 @@ VARIABLE i
 Init == i = 1
 Next == /\ i <= Len(Vec)
         /\ LET v == Vec[i]
-               f == [name |-> "LZWDecode", parms |-> [Predictor |-> 1, EarlyChange |-> v.early]]
+               \* `bare`: no /EarlyChange entry (the default, 1, applies) - the stream then carries no DecodeParms at all
+               f == IF "bare" \in DOMAIN v /\ v.bare /\ v.early = 1 THEN [name |-> "LZWDecode", parms |-> [Predictor |-> 1]]
+                    ELSE [name |-> "LZWDecode", parms |-> [Predictor |-> 1, EarlyChange |-> v.early]]
            IN PrintT(<<"REPLAY", ToJson([filters |-> <<f>>, enc |-> LzwEnc(v.data, v.early, v.clr), data |-> v.data, kind |-> "long"])>>)
         /\ i' = i + 1
 Spec == Init /\ [][Next]_i
